@@ -287,8 +287,25 @@ let handle_limits words =
   | ["kernel_limit"; rl] -> show_n (ExecLimits.kernel_limit (big_n rl))
   | _ -> "badcase"
 
+(* ---- entry cfg(P|H|L) depth lstat_type stat(ok:<type>|nf|err) -> "<seen> <xtype> <lname>" with seen/xtype in lstat|stat|none ---- *)
+let handle_entry words =
+  match words with
+  | [cfg; depth; lt; st] ->
+    let ty s = match s with "f" -> Entry.TReg | "d" -> Entry.TDir | "l" -> Entry.TLnk | "b" -> Entry.TBlk | "c" -> Entry.TChr
+                            | "p" -> Entry.TFifo | _ -> Entry.TSock in
+    let mk t ino = { Entry.st_type = ty t; st_mode = BinNums.N0; st_nlink = BinNums.N0; st_ino = n_of_int ino; st_uid = BinNums.N0;
+                     st_gid = BinNums.N0; st_size = BinNums.N0; st_dev = BinNums.N0 } in
+    let v = { Entry.v_lstat = mk lt 1;
+              v_stat = (if st = "nf" then Entry.SNotFound else if st = "err" then Entry.SErr
+                        else Entry.SOk (mk (String.sub st 3 1) 2)) } in
+    let c = match cfg with "P" -> Entry.Never | "H" -> Entry.Roots | _ -> Entry.Always in
+    let d = nat_of_int (int_of_string depth) in
+    let show = function None -> "none" | Some r -> if int_of_n r.Entry.st_ino = 1 then "lstat" else "stat" in
+    Printf.sprintf "%s %s %d" (show (Entry.seen c d v)) (show (Entry.seen_xtype c d v)) (if Entry.lname_applies c d v then 1 else 0)
+  | _ -> "badcase"
+
 let handlers : (string * (string list -> string)) list ref =
-  ref [ ("xread", handle_xread); ("xargs", handle_xargs); ("xrepl", handle_xrepl); ("xnorm", handle_xnorm); ("walk", handle_walk); ("expr", handle_expr); ("num", handle_num); ("glob", handle_glob); ("paths", handle_paths); ("delete", handle_delete); ("execm", handle_execm); ("limits", handle_limits) ]
+  ref [ ("xread", handle_xread); ("xargs", handle_xargs); ("xrepl", handle_xrepl); ("xnorm", handle_xnorm); ("walk", handle_walk); ("expr", handle_expr); ("num", handle_num); ("glob", handle_glob); ("paths", handle_paths); ("delete", handle_delete); ("execm", handle_execm); ("limits", handle_limits); ("entry", handle_entry) ]
 
 let () =
   try while true do
